@@ -28,14 +28,17 @@ DEFAULT_CFG = {
 
 
 class Scope:
-    def __init__(self, vars=(), owner=None, loops=0, idvar=None):
+    def __init__(self, vars=(), owner=None, loops=0, idvar=None, loopvars=()):
         self.vars = list(vars)
         self.owner = owner  # component name whose template lexically contains the position, or None (page)
         self.loops = loops
         self.idvar = idvar  # variable holding the owner's render id (C14 echo)
+        self.loopvars = list(loopvars)  # variables of the enclosing loops of this template position
 
     def extend(self, names, loop=False):
-        return Scope(self.vars + [n for n in names if n not in self.vars], self.owner, self.loops + (1 if loop else 0), self.idvar)
+        return Scope(
+            self.vars + [n for n in names if n not in self.vars], self.owner, self.loops + (1 if loop else 0), self.idvar, self.loopvars + (list(names) if loop else [])
+        )
 
 
 class Builder:
@@ -187,6 +190,8 @@ class Builder:
             kwargs = {"f1": self.expr(scope)}
             if self.chance(40):
                 kwargs["f2"] = self.expr(scope)
+                if self.chance(50):
+                    kwargs = {"f2": kwargs["f2"], "f1": kwargs["f1"]}  # same names, other order
             body = self.nodes(scope, depth + 1, comp_index, 1, where)
             if self.targets(comp_index) and self.chance(60):
                 body.insert(self.integer(0, len(body)), self.comp(scope, depth + 1, comp_index, where))
@@ -272,9 +277,12 @@ class Builder:
         inner_scope = scope
         name_expr = {"lit": slot_name}
         wrapper = None
+        if wrap == "none" and scope.loopvars and self.chance(35):
+            wrap = "with"  # a tag inside a loop: the same fill tag is extracted once per iteration with another value
         if wrap == "with":
             v = self.name("b")
-            wrapper = {"t": "with", "n": v, "e": self.expr(scope), "c": None}
+            e = {"var": self.pick(scope.loopvars)} if scope.loopvars and self.chance(60) else self.expr(scope)
+            wrapper = {"t": "with", "n": v, "e": e, "c": None}
             inner_scope = scope.extend([v])
         elif wrap == "withname":
             v = self.name("n")
@@ -321,7 +329,7 @@ class Builder:
             spec["data"].append([self.name("v"), ["const", self.value()]])
         if self.cfg["inject"] and self.chance(int(self.cfg.get("inject_pct", 60))):
             for _ in range(self.integer(1, 2)):
-                dflt = self.pick([None, "dfl"])
+                dflt = self.pick([None, "dfl", "dfl", ""])  # incl. a falsy default
                 spec["data"].append([self.name("j"), ["inject", "pk1" if self.chance(65) else "pk2", self.pick(["f1", "f1", "f2"]), dflt]])
         if self.cfg["idecho"]:
             spec["data"].append([self.fresh("id"), ["id"]])
